@@ -169,8 +169,14 @@ Fixpoint subst_args (i : Z) (args : list (option marg)) (text : list ch) : list 
   end.
 
 Definition ls_of_song (s : song) : lexstate := mkLex (s_timebase s) (s_logs s) (s_vars s) (s_rhythm s).
+(* read_timebase also lets every track that still has the default length (a quarter note of the old time base) follow
+   the new one.  Exact for one TimeBase command per lexed text (and for any number of them at the top level, where only
+   track 0 exists, with the default length); two TimeBase commands inside one run-time-lexed text are a stated model gap. *)
+Definition follow_timebase (old new : Z) (t : track) : track :=
+  if (tr_length t =? old) && negb (old =? new) then tr_set_length t new else t.
 Definition song_with_ls (s : song) (ls : lexstate) : song :=
-  s_set_rhythm (s_set_vars (s_set_logs (s_set_timebase s (lx_timebase ls)) (lx_logs ls)) (lx_vars ls)) (lx_rhythm ls).
+  let s1 := s_set_tracks s (map (follow_timebase (s_timebase s) (lx_timebase ls)) (s_tracks s)) in
+  s_set_rhythm (s_set_vars (s_set_logs (s_set_timebase s1 (lx_timebase ls)) (lx_logs ls)) (lx_vars ls)) (lx_rhythm ls).
 
 (* song.add_event for the events of one command arm (shapes: model/Cmd.v), at the pointer / channel of the current track *)
 Definition add_events (s : song) (f : Z -> Z -> list event) : song :=
